@@ -179,4 +179,43 @@ def run(ck):
     differs = E.M(lambda t: E.strip(t).get("k") == "call" and E.strip(t).get("f") == "strcmp" and sum(1 for n in E.walk(t) if n.get("k") == "mem" and n.get("m", "").endswith("::passwd")) == 2, "strcmp(from->passwd, passwd)")
     ck.require_response("U7.new-password-resets-state", uc, differs, True, is_cred_set("Unchecked"), "credentials(Auth::Unchecked)", term_kinds=("IfStmt",),
                         why="(a request with a different password would inherit the verdict of the lookup in flight for the old one)")
+    ck.rule("U8 credentials-cache key: Auth::User::username() builds the key with BuildUserKey(username_, realm) where realm is requestRealm_ (the expanded key_extras of the "
+            "request) whenever requestRealm_ is non-empty, and null only when it is empty; BuildUserKey appends \":realm\" exactly when realm is non-null. Dropping the "
+            "extras from the key lets a verdict cached for (user, extras A) authorise the same user name under extras B without asking the helper")
+    au = ck.facts(["src/auth/User.cc"], whole=False)
+    un = au.fn("Auth::User::username")
+    realm = E.M(lambda t: any(n.get("k") == "mem" and n.get("m") == "Auth::User::requestRealm_" for n in E.walk(t)), "requestRealm_")
+    nkey = 0
+    for b in un.blocks.values():
+        for ev in b["ev"]:
+            x = E.strip(ev.get("x")) if ev.get("e") == "call" else None
+            if not (isinstance(x, dict) and x.get("f") == "Auth::User::BuildUserKey" and len(x.get("a", [])) == 2):
+                continue
+            nkey += 1
+            a1 = E.strip(x["a"][1])
+            good, how = False, E.key(a1)[:100]
+            if a1.get("k") == "cond":
+                t, pol = E.norm(a1["c"])
+                st = E.strip(t)
+                if isinstance(st, dict) and st.get("k") == "call" and st.get("f") == "SBuf::isEmpty" and realm(st.get("o")):
+                    when_empty, when_set = (a1["t"], a1["f"]) if pol else (a1["f"], a1["t"])
+                    good = E.strip(when_empty).get("k") == "null" and E.strip(when_set).get("f") in ("SBuf::c_str", "SBuf::rawContent") and realm(when_set)
+                else:
+                    ck.need(False, "C46: Auth::User::username() selects the key realm with an unrecognised test %s" % E.key(a1["c"]))
+            elif a1.get("k") == "call" and a1.get("f") == "SBuf::c_str" and realm(a1):
+                good = True         # always keyed with the (possibly empty) extras
+            if good:
+                ck.ok("U8.cache-key-includes-extras", un.where(ev["l"]), "username(): key = BuildUserKey(username_, requestRealm_ when non-empty)")
+            else:
+                ck.violation("U8.cache-key-includes-extras", "U8|Auth::User::username|key-realm", un.where(ev["l"]), "Auth::User::username() builds the credentials-cache key with %s: "
+                             "the request's key_extras do not take part in the key when they are present" % how)
+    ck.need(nkey >= 1, "C46: Auth::User::username() no longer builds userKey_ with BuildUserKey()")
+    bk = au.fn("Auth::User::BuildUserKey")
+    bfl = ck.flow(bk)
+    ck.need(len(bk.params) == 2, "C46: BuildUserKey signature changed")
+    R = bk.params[1]["d"]
+    printf2 = lambda e: e.get("e") == "call" and E.strip(e["x"]).get("f", "").endswith(("::Printf", "::appendf")) and any(E.m_is_ref(R)(a_) for a_ in E.strip(e["x"]).get("a", []))
+    ck.require_fact("U8.cache-key-includes-extras", bfl, printf2, E.m_is_ref(R), True, "key.Printf(\"%s:%s\", username, realm)")
+    ck.require_response("U8.cache-key-includes-extras", bk, E.m_is_ref(R), True, printf2, "key.Printf(..., realm)", why="(a non-null realm would be left out of the key)")
+
     ck.assume("which UserRequest authTryGetUser() picks (identity mixing across connections), credential caches, scheme decoders other than the two Basic gates of U6/U7 and out-of-order helper replies are not analysed")
